@@ -27,6 +27,8 @@ func C11(c *Ctx) {
 	r.Rule("C11-d", "dedupe ranges over the slice, keeps an error iff its Error() text was not seen, in order")
 	r.Rule("C11-e", "parse(): `if p.recover { defer func(){ if e := recover(); e != nil { val = nil; addErr(e as error, or fmt.Errorf(\"%v\", e)); err = p.errs.err() } }() }` precedes the first read()/evaluation; newParser sets recover: true; only the Recover option assigns p.recover")
 
+	r.Rule("C11-g", "the display name the error prefix uses is the one the grammar gives: builder.writeRule emits displayName from the rule's DisplayName exactly when it is present (the pairing rule of C01-d under this property)")
+	builderPairingN(c, "C11-g", "writeRule")
 	abs := c.allAbs()
 	r.Min("semantic variants analysed", 16, len(abs))
 	for _, a := range abs {
